@@ -137,6 +137,9 @@ class Replay:
         p = subprocess.run([self.bin], input=inp, capture_output=True, text=True, timeout=timeout, env=env, preexec_fn=pre)
         lines = [l for l in p.stdout.split("\n") if l.strip()]
         if len(lines) != len(requests):
+            if os.environ.get("VERIF_DEBUG"):
+                with open(os.path.join(WORK, "last-failed-requests.jsonl"), "w") as fdbg:
+                    fdbg.write(inp)
             raise Inconclusive(f"replay driver answered {len(lines)} of {len(requests)} requests: {p.stderr[-500:]}")
         return [json.loads(l) for l in lines]
 
